@@ -86,6 +86,7 @@ def mk_container(I, tag, cap='finite', finite_keys=None, present=None, wf=True):
             I.assume(vol <= capv)
     o.fields.update(name=name, contents=contents, volume=vol, max_volume=capv,
                     instructions=SegStr([OpaqueHole(f'instructions of {tag}', {f'text:{tag}'})]), experimental_conditions={})
+    init_defaults(I, o)
     return CState(o, amt, mem, vol, capv, name)
 
 
@@ -193,6 +194,79 @@ def nice_model_prefs(keys, amounts, scalars):
     return out
 
 
+_INIT_CONSTS = {}
+
+
+def init_defaults(I, obj):
+    """attributes that the real __init__ sets to a constant (None, 0, '', True ...) and that a hand-built symbolic object
+    does not carry: objects reachable in CPython always went through __init__, so they have them"""
+    import ast as _ast
+    cname = obj.cls.name
+    if cname not in _INIT_CONSTS:
+        consts = {}
+        try:
+            node = I.repo.find(f'{cname}.__init__')
+            for st in node.body:
+                if isinstance(st, _ast.Assign) and len(st.targets) == 1 and isinstance(st.targets[0], _ast.Attribute) \
+                        and isinstance(st.targets[0].value, _ast.Name) and st.targets[0].value.id == 'self' \
+                        and isinstance(st.value, _ast.Constant):
+                    consts[st.targets[0].attr] = st.value.value
+        except KeyError:
+            pass
+        _INIT_CONSTS[cname] = consts
+    for k, v in _INIT_CONSTS[cname].items():
+        obj.fields.setdefault(k, v)
+    return obj
+
+
+def native_fallback(res, name, case, jobs, which_pid_serves=None):
+    """some path of this case uses a construct the engine cannot follow, so nothing is proved for it (the `unsupported`
+    result stays and makes the check UNDECIDED at best); the replay scenario of the case is still executed on the real
+    code, and a misbehaviour there is a concrete failing input, reported as a refutation with its replay"""
+    if not any(r['verdict'] == 'unsupported' for r in res):
+        return res
+    from pyvc import harness
+    for job in jobs:
+        out = harness.run_replay(job)
+        if out.get('ok') is False:
+            res.append({'name': name, 'case': case, 'kind': 'property', 'verdict': 'refuted', 'independent': True, 'secs': 0.0,
+                        'backend': 'native run of the replay scenario (engine: unsupported construct)',
+                        'note': str(out.get('observed'))[:400], 'replays': [job]})
+            break
+    return res
+
+
+# ---- observers with a history: the arguments have already been asked (memoised answers exist) when the operation runs,
+# and the results must answer by definition
+_ANY_LIQ = None
+
+
+def prequery(I, *objs):
+    """the caller has already used the observers of these objects (so any memoised answer is in place)"""
+    for o in objs:
+        if isinstance(o, Obj) and o.cls.name == 'Container':
+            vc.call(I, 'Container.has_liquid', [o])
+
+
+def oblige_observers(I, label, obj):
+    """has_liquid() of a result = `any substance of ITS contents is a liquid` (evaluated by the engine on the result's own
+    contents with the library's own generator expression)"""
+    global _ANY_LIQ
+    import ast as _ast
+    from pyvc.interp import Env
+    if _ANY_LIQ is None:
+        _ANY_LIQ = _ast.parse("any(substance.is_liquid() for substance in c)", mode='eval').body
+    got = vc.call(I, 'Container.has_liquid', [obj])
+    if got.kind != 'return':
+        I.oblige(f'observers[has_liquid/{label}]', False, 'property', note=f'has_liquid raised {got.exc.cls}')
+        return
+    env = Env(None, I.globals)
+    env.set('c', obj.fields['contents'])
+    want = I.ev(_ANY_LIQ, env)
+    I.oblige(f'observers[has_liquid/{label}]', boolz(got.value) == boolz(want), 'property',
+             note=f'has_liquid() of the {label} is stale: it does not answer for its own contents')
+
+
 # Callee contracts a property RELIES on (modular verification: a caller is checked against the callee's contract, so the
 # check of the caller's property re-discharges the clauses of that contract it uses; a change inside the callee that
 # breaks one of them is then reported under every property that depends on it, not only under the callee's own).
@@ -202,7 +276,8 @@ DEPENDS = {
     'C12': {'Container._transfer': _TRANSFER_CONTRACT, 'Container.__init__': _INIT_CONTRACT},     # mod_transfer / mod_init
     'C05': {'Container._transfer': _TRANSFER_CONTRACT, 'Container.__init__': _INIT_CONTRACT},
     'C02': {'Container._transfer': ('vol',)},    # chains of transfers: the next transfer's size relies on volume = sum
-    'C03': {'Container._transfer': ('vol',)},    # refusal by volume compares with the stored volume
+    'C03': {'Container._transfer': ('vol',), 'Container.remove': ('vol',), 'Container._add': ('vol',),
+            'Container.fill_to': ('vol',), 'Container.__init__': ('vol',)},    # capacity checks and refusals by volume compare with the STORED volume
 }
 
 
